@@ -7,12 +7,15 @@ from harness.common import core
 from harness.common.core import pct, rat, unpct
 
 ID = "C15"
-LEAN_TARGETS = ["ChmpyVerif.Props.C15", "ChmpyVerif.Props.C15Line", "ChmpyVerif.Props.C15Row"]
+LEAN_TARGETS = ["ChmpyVerif.Props.C15", "ChmpyVerif.Props.C15Line", "ChmpyVerif.Props.C15Row", "ChmpyVerif.Props.C15Float"]
 T = "ChmpyVerif.Props.C15."
 THEOREMS = [T + n for n in ("matchNumber_int", "parse_value_int", "parse_value_quoted", "parse_value_plain", "needsQuote_iff",
                             "tokens_single_quoted", "wellformed_example",
                             "splitWs_head", "scalar_line", "scalar_line_int", "scalar_line_quoted",
                             "go_fuel2", "tokens_pad", "tokens_word", "tokens_quoted", "row_tokens", "fmtInt_field")]
+# loop rows with fixed-point numbers (atom-site loops): the written number is a well-formed field, the row is cut into its fields, the
+# token reads back as the 12-decimal rounding of the value
+THEOREMS += ["ChmpyVerif.Props.C15." + n for n in ("fmtFixed_field", "fixedCore_reads_back", "fixedCore_error", "atom_site_row_tokens", "alnum_isWord", "atom_site_row_tokens_alnum")]
 TRUSTED = [
     "hand model Model/Cif.lean of parse_value / NUM_ERR_REGEX / parse_quote / VALUES_REGEX / format_field / Cif.to_string / Cif.parse "
     "(line-driven state machine; multi-line ';' text fields not modelled); tied by whole-document correspondence incl. a malformed stream",
